@@ -4,6 +4,7 @@
    (exact need / doubling); the results are also compared with the pure layer (Model/Coll.v). *)
 From Coq Require Import ZArith NArith Bool List.
 From PcoreV Require Import Model.Base Model.Heap Model.Coll Model.CollHeap.
+From PcoreV Require Import Model.Ty Model.Lattice Model.Infer Model.InferHeap.
 Import ListNotations.
 
 Definition c08_check_with (grow : nat -> nat -> nat) (c : list op * (list out * list pv)) : bool :=
@@ -15,3 +16,97 @@ Definition c08_check (c : list op * (list out * list pv)) : bool :=
   list_eqb out_eqb (Coll.run (fst c)) (fst (snd c)).
 
 Definition c08_mismatches (cs : list (list op * (list out * list pv))) : list N := failing c08_check cs.
+
+(* ---- results that are types: the slice-level model of inference (Model/InferHeap.v) on a type history: the
+   projected result of every step and the final observation of EVERY pool entry (values and types), under two
+   growth policies; and, third leg, the pure inference of Model/Infer.v (property C04) on the same history. ---- *)
+Definition c08_infer_check_with (grow : nat -> nat -> nat) (c : list iop * (list iout * list iobs)) : bool :=
+  let '(st, outs) := irun grow iempty (fst c) in
+  list_eqb iout_eqb outs (fst (snd c)) && list_eqb iobs_eqb (ifinal st) (snd (snd c)).
+
+(* the pure layer: values without identity, types without slices *)
+Inductive pent := PV_ (v : value) | PT_ (t : ty).
+
+Fixpoint pv_value (p : pv) : value :=
+  match p with
+  | PUndef => VUndef | PBool b => VBool b | PInt z => VInt z | PStr s => VStr s
+  | PArr l => VArr (map pv_value l)
+  | PHash es => VHash (map (fun e => (pv_value (fst e), pv_value (snd e))) es)
+  | PEntry _ _ | PNil | PCut | PBad => VUndef
+  end.
+
+Fixpoint value_pv (v : value) : pv :=
+  match v with
+  | VBool b => PBool b | VInt z => PInt z | VStr s => PStr s
+  | VArr l => PArr (map value_pv l)
+  | VHash es => PHash (map (fun e => (value_pv (fst e), value_pv (snd e))) es)
+  | _ => PUndef
+  end.
+
+Fixpoint pure_vals (pool : list pent) (rs : list nat) : option (list value) :=
+  match rs with
+  | [] => Some []
+  | r :: t => match nth_error pool r, pure_vals pool t with
+              | Some (PV_ v), Some vs => Some (v :: vs)
+              | _, _ => None
+              end
+  end.
+
+Fixpoint pure_entries (pool : list pent) (krs : list (str * nat)) : option (list (value * value)) :=
+  match krs with
+  | [] => Some []
+  | (k, r) :: t => match nth_error pool r, pure_entries pool t with
+                   | Some (PV_ v), Some es => Some ((VStr k, v) :: es)
+                   | _, _ => None
+                   end
+  end.
+
+Definition pure_sub (t : ty) (i : nat) : option ty :=
+  match t, i with
+  | TArray e _ _, O => Some e
+  | THash k _ _ _, O => Some k
+  | THash _ v _ _, S O => Some v
+  | TType t, O => Some t
+  | _, _ => None
+  end.
+
+Definition pure_step (pool : list pent) (o : iop) : option pent :=
+  match o with
+  | ILit p => Some (PV_ (pv_value p))
+  | IWrapArr rs => match pure_vals pool rs with Some vs => Some (PV_ (VArr vs)) | None => None end
+  | IWrapHash krs => match pure_entries pool krs with Some es => Some (PV_ (VHash es)) | None => None end
+  | IAdd r x => match nth_error pool r, nth_error pool x with
+                | Some (PV_ (VArr vs)), Some (PV_ xv) => Some (PV_ (VArr (vs ++ [xv])))
+                | _, _ => None
+                end
+  | IAt r i => match nth_error pool r with Some (PV_ (VArr vs)) => Some (PV_ (nth i vs VUndef)) | _ => None end
+  | ISub r i => match nth_error pool r with
+                | Some (PT_ t) => match pure_sub t i with Some u => Some (PT_ u) | None => None end
+                | _ => None
+                end
+  | IEnumLit ci vs _ => Some (PT_ (mk_enum vs ci))
+  | IPType r => match nth_error pool r with
+                | Some (PV_ v) => Some (PT_ (infer norx v))
+                | Some (PT_ t) => Some (PT_ (TType t))
+                | None => None
+                end
+  | ICommon r x => match nth_error pool r, nth_error pool x with
+                   | Some (PT_ a), Some (PT_ b) => Some (PT_ (common norx a b))
+                   | _, _ => None
+                   end
+  end.
+
+Fixpoint pure_run (pool : list pent) (ops : list iop) : list iout :=
+  match ops with
+  | [] => []
+  | o :: t => match pure_step pool o with
+              | Some e => IVal (match e with PV_ v => OV (value_pv v) | PT_ u => OT u end) :: pure_run (pool ++ [e]) t
+              | None => IErr :: pure_run (pool ++ [PV_ VUndef]) t
+              end
+  end.
+
+Definition c08_infer_check (c : list iop * (list iout * list iobs)) : bool :=
+  c08_infer_check_with grow_double c && c08_infer_check_with grow_exact c &&
+  list_eqb iout_eqb (pure_run [] (fst c)) (fst (snd c)).
+
+Definition c08_infer_mismatches (cs : list (list iop * (list iout * list iobs))) : list N := failing c08_infer_check cs.
